@@ -204,8 +204,8 @@ pub fn fe_brief<C: Codec>(fe: &Fe<C::Packet, C::Err>) -> String {
 pub fn fe_long<C: Codec>(fe: &Fe<C::Packet, C::Err>) -> String {
     let s = match fe {
         Fe::Ok { pkt, consumed, total, body } => format!(
-            "Ok(pkt={:?}, consumed={:?}, total={:?}, body={:?})",
-            pkt,
+            "Ok(pkt={}, consumed={:?}, total={:?}, body={:?})",
+            safe_debug(pkt),
             consumed,
             total,
             body.as_ref().map(|b| crate::ast::Bs(b.clone()))
